@@ -65,4 +65,123 @@ def inDisk (r : α) (c p : P2 α) : Bool :=
 def inEllipse (a b : α) (c p : P2 α) : Bool :=
   decide (sqr ((p.x - c.x) / a) + sqr ((p.y - c.y) / b) ≤ lit 1)
 
+/-! ### convex polygons: membership without a triangulation -/
+
+/-- `p` is strictly left of every directed edge of `vs`: for a counter-clockwise convex polygon
+    this IS the definition of its interior (intersection of the open half-planes of its edges) -/
+def leftOfAll (vs : List (P2 α)) (p : P2 α) : Bool :=
+  (edges vs).all fun e => decide (lit 0 < orient e.1 e.2 p)
+
+/-- the clockwise version: strictly right of every directed edge -/
+def rightOfAll (vs : List (P2 α)) (p : P2 α) : Bool :=
+  (edges vs).all fun e => decide (orient e.1 e.2 p < lit 0)
+
+/-- interior of a convex polygon given in either orientation -/
+def inConvex (vs : List (P2 α)) (p : P2 α) : Bool := leftOfAll vs p || rightOfAll vs p
+
+/-- `p` lies on one of the closed edges of the polygon `vs` -/
+def onPolygon (vs : List (P2 α)) (p : P2 α) : Bool := (edges vs).any fun e => onSegment e.1 e.2 p
+
+def p2Eqb (a b : P2 α) : Bool := Scalar.eqb a.x b.x && Scalar.eqb a.y b.y
+
+/-- **strict convexity checker** (counter-clockwise): every vertex other than the edge's own two
+    end points is strictly left of every directed edge, and every edge has such a vertex -/
+def convexCheck (vs : List (P2 α)) : Bool :=
+  !vs.isEmpty && (edges vs).all fun e =>
+    (vs.all fun v => p2Eqb v e.1 || p2Eqb v e.2 || decide (lit 0 < orient e.1 e.2 v)) &&
+    (vs.any fun v => decide (lit 0 < orient e.1 e.2 v))
+
+/-! ### the even–odd (crossing number) rule: a second, triangulation-free description of the region -/
+
+/-- `v` is to the right of the upward vertical ray from `p`; a point exactly above `p` counts as
+    right, a point exactly below as left (the usual consistent tie-break: the ray is thought of as
+    tilted infinitesimally clockwise) -/
+def rightOfRay (p v : P2 α) : Bool :=
+  decide (p.x < v.x) || (Scalar.eqb v.x p.x && decide (p.y < v.y))
+
+/-- the directed edge `a → b` crosses the upward ray from `p`: its end points are on different
+    sides and it passes above `p` (for a right-to-left edge `p` is then on its left) -/
+def crossesUp (p a b : P2 α) : Bool :=
+  (rightOfRay p a != rightOfRay p b) &&
+    (if rightOfRay p a then decide (lit 0 < orient a b p) else decide (orient a b p < lit 0))
+
+/-- number of edges of the closed polygon crossing the upward ray from `p` -/
+def crossNumber (vs : List (P2 α)) (p : P2 α) : Nat :=
+  ((edges vs).filter fun e => crossesUp p e.1 e.2).length
+
+/-- even–odd rule: inside iff the ray crosses the boundary an odd number of times -/
+def evenOdd (vs : List (P2 α)) (p : P2 α) : Bool := crossNumber vs p % 2 == 1
+
+/-! ### triangulation certificates (computable checkers; the driver runs them exactly over ℚ;
+    soundness is proved in `Lemmas/Inside2DCert.lean`) -/
+
+/-- remove the first element satisfying `q` (`none` when there is none) -/
+def removeFirst {β : Type} (q : β → Bool) : List β → Option (List β)
+  | [] => none
+  | x :: xs => if q x then some xs else (removeFirst q xs).map (x :: ·)
+
+def edgeRevEqb (e f : P2 α × P2 α) : Bool := p2Eqb e.1 f.2 && p2Eqb e.2 f.1
+
+/-- repeatedly take the head edge `(a, b)`, find a `(b, a)` in the rest, remove both;
+    `true` iff everything cancels (`fuel ≥ length` suffices) -/
+def cancelEdges : Nat → List (P2 α × P2 α) → Bool
+  | _, [] => true
+  | 0, _ :: _ => false
+  | fuel + 1, e :: rest =>
+    match removeFirst (fun f => edgeRevEqb f e) rest with
+    | none => false
+    | some rest' => cancelEdges fuel rest'
+
+/-- the three directed edges of a triangle -/
+def triEdges (t : Tri2 α) : List (P2 α × P2 α) := [(t.a, t.b), (t.b, t.c), (t.c, t.a)]
+
+/-- **boundary-chain checker**: (edges of the polygon) − Σ (edges of the triangles) cancels to
+    the empty chain, i.e. the polygon cycle is the boundary chain of the triangulation -/
+def chainCheck (vs : List (P2 α)) (Ts : List (Tri2 α)) : Bool :=
+  let L := edges vs ++ (Ts.flatMap triEdges).map fun e => (e.2, e.1)
+  cancelEdges L.length L
+
+/-- all triangles strictly positively oriented, or all strictly negatively oriented -/
+def orientedCheck (Ts : List (Tri2 α)) : Bool :=
+  (Ts.all fun t => decide (lit 0 < orient t.a t.b t.c)) ||
+  (Ts.all fun t => decide (orient t.a t.b t.c < lit 0))
+
+/-- **triangulation certificate**: what `polygon_inside_iff` presupposes about `(vs, Ts)` -/
+def certCheck (vs : List (P2 α)) (Ts : List (Tri2 α)) : Bool := chainCheck vs Ts && orientedCheck Ts
+
+/-- the query point is on none of the closed edges of the triangles -/
+def offCheck (Ts : List (Tri2 α)) (p : P2 α) : Bool := Ts.all fun t => !onBoundary t p
+
+/-! ### the polygon in space: intrinsic membership (no rotation into the `xy` plane) -/
+
+structure Tri3 (α : Type) where
+  a : V3 α
+  b : V3 α
+  c : V3 α
+
+/-- `n · ((b − a) × (p − a))`: twice the signed area of `a b p` seen from the side `n` points to -/
+def orient3 (n a b p : V3 α) : α := V3.dot n (V3.cross (b - a) (p - a))
+
+/-- `p` (a point of the plane of `t`) is strictly inside the triangle `t` of 3-space:
+    strictly on the same side of its three directed edges, seen along `n` -/
+def inTriangle3 (n : V3 α) (t : Tri3 α) (p : V3 α) : Bool :=
+  (decide (lit 0 < orient3 n t.a t.b p) && decide (lit 0 < orient3 n t.b t.c p) &&
+      decide (lit 0 < orient3 n t.c t.a p)) ||
+  (decide (orient3 n t.a t.b p < lit 0) && decide (orient3 n t.b t.c p < lit 0) &&
+      decide (orient3 n t.c t.a p < lit 0))
+
+/-- in-plane part of `(a − p)·(b − p)` for a unit normal `n` -/
+def dot3 (n a b p : V3 α) : α :=
+  V3.dot (a - p) (b - p) - V3.dot n (a - p) * V3.dot n (b - p)
+
+/-- the projection of `p` along `n` lies on the closed segment `[a, b]` -/
+def onSegment3 (n a b p : V3 α) : Bool :=
+  Scalar.eqb (orient3 n a b p) (lit 0) && decide (dot3 n a b p ≤ lit 0)
+
+def onBoundary3 (n : V3 α) (t : Tri3 α) (p : V3 α) : Bool :=
+  onSegment3 n t.a t.b p || onSegment3 n t.b t.c p || onSegment3 n t.c t.a p
+
+/-- membership in the planar region of 3-space triangulated by `Ts` -/
+def inRegion3 (n : V3 α) (Ts : List (Tri3 α)) (p : V3 α) : Bool := Ts.any fun t => inTriangle3 n t p
+
 end Spec.In2D
